@@ -125,7 +125,8 @@ structure Segment where
   eventsEnd : Bool := false
   closedFlag : Bool := false
   dropped : Bool := false
-  lost : List Bytes := []                    -- ghost (K3), not observable
+  resumed : Bool := false                    -- coverage only, not observable: the receive future waiting for the
+                                             -- `noidle` reply resumed what a dropped future had already parsed
 deriving Repr, DecidableEq
 
 structure World where
@@ -236,7 +237,6 @@ def absorbObs (w : World) : World :=
       | .eventsEnd => go { seg with eventsEnd := true } keep os
       | .transportDropped => go { seg with dropped := true } keep os
       | .connected c => go { seg with connect := some c } keep os
-      | .lost ns => go { seg with lost := seg.lost ++ ns } keep os
       | .resolved id r => go seg (keep ++ [.resolved id r]) os
   let (seg, keep) := go w.seg [] w.st.obs
   let conn := match seg.connect with
@@ -332,7 +332,9 @@ def apply (w : World) : Action → World
 def runAction (w : World) (a : Action) : World × Segment :=
   let w := quiesce 200 (apply { w with seg := {} } a)
   let closedNow := w.mainAlive && w.connected && !w.closedSeen && (match w.st.pc with | .exited => true | _ => false)
-  let seg := { w.seg with closedFlag := closedNow, results := w.seg.results.mergeSort (fun a b => a.1 ≤ b.1) }
+  let resumed := (match w.st.pc with | .cancelWait _ _ => true | _ => false) && w.st.bstash != .initial
+  let seg := { w.seg with closedFlag := closedNow, resumed := resumed,
+                          results := w.seg.results.mergeSort (fun a b => a.1 ≤ b.1) }
   ({ w with closedSeen := w.closedSeen || closedNow, seg := {} }, seg)
 
 /-- a whole schedule; also reports, per segment, how many scheduler choices had been consulted by
